@@ -148,7 +148,11 @@ def observe(objs):
             return {"k": "deep"}
         kind, keys, ch = c
         mutable = kind.split(":")[0] in MUT
-        return {"k": kind, "id": lab(o) if mutable else None, "keys": keys, "items": [go(x, depth + 1) for x in ch]}
+        me = lab(o) if mutable else None
+        items = [go(x, depth + 1) for x in ch]
+        if kind in ("set", "fset"):
+            items = sorted(items, key=_skey)       # elements are hashable: no labels inside, order by value
+        return {"k": kind, "id": me, "keys": keys, "items": items}
 
     return [None if o is _NOROOT else go(o, 0) for o in objs]
 
@@ -415,7 +419,7 @@ def impl(case):
     res = {"outs": outs, "defaults": snap[:nd], "roots": snap[nd:], "input_changed": changed}
     # the probe (last call) on freshly built declarations in this process ...
     last = case["ops"][-1]
-    if last["op"] == "call":
+    if last["op"] == "call" and '"root"' not in json.dumps(last["input"]):     # a probe must not refer to earlier roots
         ow = (last["target"], last.get("wrapper", 0)) if case["env"][last["target"]]["kind"] == "func" else None
         o2, r2, _, p2 = run_program(case, only_last=True, only_wrapper=ow)
         s2 = observe(r2)
@@ -589,14 +593,15 @@ def canon_model(trees):
         elif base == "inst":
             order = [0] + sorted(range(1, len(keys)), key=lambda i: keys[i])
             keys, items = [keys[i] for i in order], [items[i] for i in order]
-        elif base in ("set", "fset"):
-            items = sorted(items, key=_skey)
         lab = None
         if base in MUT:
             if t["id"] not in labels:
                 labels[t["id"]] = len(labels)
             lab = labels[t["id"]]
-        return {"k": k, "id": lab, "keys": keys, "items": [go(x) for x in items]}
+        out = [go(x) for x in items]
+        if base in ("set", "fset"):
+            out = sorted(out, key=_skey)          # elements are hashable: no labels inside, order by value
+        return {"k": k, "id": lab, "keys": keys, "items": out}
 
     return [go(t) for t in trees]
 
@@ -1005,7 +1010,7 @@ class C19(Check):
     props_modules = ["Utv.Props.C19"]
     driver = "C19"
     impl = "harness.c19:impl"
-    case_timeout = 60.0
+    case_timeout = 25.0
     rule = ("programs = 1-3 declarations (Schema / DataClass / @utype.parse function; 1-4 fields typed Any, int, bare or "
             "parametrised list/tuple/set/frozenset/dict, fixed tuples, Optional, nested/self/forward-referenced data classes; "
             "defaults given plainly, via Field(default=), via a factory returning one shared object or a new one, nested "
@@ -1019,7 +1024,7 @@ class C19(Check):
                    "list/set/dict/instance/__dict__/bytearray/deque objects carry identity labels",
                    "the registry cache (C16) and lazy forward-reference state are covered by the fresh-declaration and "
                    "fresh-interpreter replays only (not modelled in Lean here)"]
-    budget = {"quick": 900, "thorough": 14000}
+    budget = {"quick": 2500, "thorough": 20000}
     search_budget = {"quick": 1500, "thorough": 12000}
 
     def cases(self, tier, rng, n):
@@ -1132,6 +1137,11 @@ class C19(Check):
             if ops[k]["op"] == "call":
                 out.append(dict(case, ops=ops[:k + 1]))
         return [c for c in out if c["ops"] and c["ops"][-1]["op"] == "call"]
+
+    def reproduce(self, case):
+        return (f"cd {VERIF} && UTYPE_REPO={REPO} {PY} -c 'import json,os,sys,warnings; warnings.simplefilter(\"ignore\"); "
+                f"sys.path[:0]=[os.environ[\"UTYPE_REPO\"], \".\"]; from harness import c19; c=json.loads(sys.argv[1]); "
+                f"io=c19.impl(c); print(io[\"outs\"]); print(c19.spec_check(c, io))' '{json.dumps(case, sort_keys=True)}'")
 
     def finish_evidence(self, ev, tier):
         st = getattr(self, "_stats", None)
